@@ -573,7 +573,7 @@ Proof.
     + destruct (tr_tie_mode t =? 2) eqn:M2;
         [apply Z.eqb_eq in M2; rewrite M2; cbn [Z.eqb Pos.eqb]; apply gate_notes_facts; exact RH|].
       destruct (tr_tie_mode t =? 3).
-      * unfold out_alpe, note_count. rewrite map_length.
+      * unfold out_alpe, note_count.
         assert (F : forall l, Forall (fun e => e_type e = NoteOn) l ->
                   filter (fun e => etype_eqb (e_type e) NoteOn) (map (fun e => set_v2 e (group_end first rest - e_time e)) l)
                   = map (fun e => set_v2 e (group_end first rest - e_time e)) l).
@@ -725,7 +725,7 @@ Proof.
       split; [exact Hh|]. split; [reflexivity|].
       unfold cur_track in *. cbn [s_set_octave_once s_tracks s_cur]. rewrite C5, A5.
       split; [reflexivity|]. split; [reflexivity|]. split; [|reflexivity]. unfold tie_frame_eq. cbn. tauto. }
-  destruct B as [Hc2 [B5 [Btb [Bt [Be [_ Bbr]]]]]]. rewrite B5.
+  destruct B as [Hc2 [B5 [Btb [Bt [Be [Bf Bbr]]]]]]. rewrite B5.
   destruct (slur >=? 1) eqn:S1.
   - eexists. split; [reflexivity|]. cbv zeta. destruct (upd_cur_facts s2 (fun t => push_tie_note t ev) Hc2) as [_ [_ [_ [_ D5]]]].
     rewrite D5. cbn [push_tie_note tr_set_tie tr_tie_notes tr_events]. rewrite Bt, Be.
@@ -741,6 +741,107 @@ Proof.
       rewrite (check_spec (s_timebase s2) (push_tie_note (cur_track s2) ev) x (l ++ [ev]))
         by (cbn [push_tie_note tr_set_tie tr_tie_notes]; rewrite T; reflexivity).
       cbn [push_tie_note tr_set_tie tr_events]. rewrite Be, Btb. f_equal.
-      unfold tie_out. cbn [tr_tie_mode tr_channel tr_bend_range tr_tie_value].
-      admit.
-Admitted.
+      destruct Bf as [_ [Fch [_ [_ [_ [_ [_ [_ [Fm Fv]]]]]]]]].
+      cbn [tr_set_octave tr_set_timepos tr_channel tr_tie_mode tr_tie_value] in Fch, Fm, Fv.
+      unfold tie_out. cbn [push_tie_note tr_set_tie tr_tie_mode tr_channel tr_bend_range tr_tie_value].
+      rewrite Fch, Fm, Fv, Bbr. reflexivity.
+Qed.
+
+(* ------------------------------------------------------------------------------------------------ *)
+(* 10. the final flush (generate -> flush_tie_notes): a group that ends the track is written          *)
+
+Lemma single_note tb t e :
+  tr_tie_notes t = [e] -> tr_tie_mode t <> 1 -> tr_events (check_tie_notes tb t) = tr_events t ++ [e].
+Proof.
+  intros G M. rewrite (check_spec tb t e [] G). cbn [tr_set_tie tr_events]. f_equal.
+  assert (E : set_v2 e (e_time e + e_v2 e - e_time e) = e) by (destruct e as [ty tm c k gt vl dt]; unfold set_v2; cbn [e_type e_time e_ch e_v1 e_v2 e_v3 e_data]; f_equal; lia).
+  unfold tie_out. apply Z.eqb_neq in M. rewrite M.
+  destruct (tr_tie_mode t =? 2); [unfold out_gate, runs; cbn [runs_lr gate_notes]; rewrite E; reflexivity|].
+  destruct (tr_tie_mode t =? 3); [unfold out_alpe, group_end; cbn [end_after map]; rewrite E; reflexivity|].
+  unfold out_port, runs. cbn [runs_lr length Nat.leb port_out app]. rewrite E. reflexivity.
+Qed.
+
+Theorem flush_at_end s :
+  length (tracks_for_writer s) = length (s_tracks s) /\
+  forall i t, nth_error (s_tracks s) i = Some t ->
+    nth_error (tracks_for_writer s) i =
+      Some (let evs := tr_events (check_tie_notes (s_timebase s) t) in
+            if s_play_from s <? 0 then evs else play_from (s_play_from s) evs)
+    /\ (forall first rest, tr_tie_notes t = first :: rest ->
+          tr_events (check_tie_notes (s_timebase s) t) = tr_events t ++ tie_out (s_timebase s) t first rest)
+    /\ (tr_tie_notes t = [] -> tr_events (check_tie_notes (s_timebase s) t) = tr_events t)
+    /\ (forall e, tr_tie_notes t = [e] -> tr_tie_mode t <> 1 ->
+          tr_events (check_tie_notes (s_timebase s) t) = tr_events t ++ [e]).
+Proof.
+  unfold tracks_for_writer. split; [apply map_length|]. intros i t H.
+  split; [exact (map_nth_error (fun t0 => if s_play_from s <? 0 then tr_events (check_tie_notes (s_timebase s) t0)
+                  else play_from (s_play_from s) (tr_events (check_tie_notes (s_timebase s) t0))) i (s_tracks s) H)|].
+  split; [intros first rest G; rewrite (check_spec _ t first rest G); reflexivity|].
+  split; [intros G; rewrite check_nil by exact G; reflexivity|].
+  intros e G M. apply single_note; assumption.
+Qed.
+
+(* ------------------------------------------------------------------------------------------------ *)
+(* 11. the statements of props/C13.v about "what check_tie_notes adds"                                *)
+
+Theorem bend_in_range tb t :
+  Forall (fun e => e_type e = NoteOn) (tr_tie_notes t) ->
+  exists new, tr_events (check_tie_notes tb t) = tr_events t ++ new /\
+              Forall (fun e => e_type e = PitchBend -> 0 <= e_v1 e <= 16383) new.
+Proof.
+  intros N. destruct (tr_tie_notes t) as [|first rest] eqn:G.
+  - exists []. rewrite check_nil by exact G. rewrite app_nil_r. split; [reflexivity | constructor].
+  - exists (tie_out tb t first rest). rewrite (check_spec tb t first rest G). split; [reflexivity|].
+    apply (tie_out_facts tb t first rest N).
+Qed.
+
+Theorem no_double tb t :
+  Forall (fun e => e_type e = NoteOn) (tr_tie_notes t) ->
+  exists new, tr_events (check_tie_notes tb t) = tr_events t ++ new /\
+    (note_count new <= length (tr_tie_notes t))%nat /\
+    (tr_tie_mode t = 3 -> note_count new = length (tr_tie_notes t)) /\
+    (tr_tie_mode t = 1 -> tr_tie_notes t <> [] -> note_count new = 1%nat) /\
+    (tr_tie_mode t = 0 \/ tr_tie_mode t = 2 -> forall first rest, tr_tie_notes t = first :: rest ->
+       note_count new = length (runs first rest) /\
+       (neighbours_differ first rest -> note_count new = length (tr_tie_notes t))).
+Proof.
+  intros N. destruct (tr_tie_notes t) as [|first rest] eqn:G.
+  - exists []. rewrite check_nil by exact G. rewrite app_nil_r. split; [reflexivity|]. split; [cbn; lia|].
+    split; [reflexivity|]. split; [congruence|]. intros _ f r H. discriminate.
+  - exists (tie_out tb t first rest). rewrite (check_spec tb t first rest G). split; [reflexivity|].
+    destruct (tie_out_facts tb t first rest N) as [_ [C L]]. rewrite C. split; [|split; [|split]].
+    + destruct (tr_tie_mode t =? 1); [cbn [length]; lia|]. destruct (tr_tie_mode t =? 3); [lia | exact L].
+    + intros M. rewrite M. reflexivity.
+    + intros M _. rewrite M. reflexivity.
+    + intros M f r H. injection H as <- <-.
+      assert (E : (tr_tie_mode t =? 1) = false /\ (tr_tie_mode t =? 3) = false) by (destruct M as [M|M]; rewrite M; split; reflexivity).
+      destruct E as [E1 E3]. rewrite E1, E3. split; [reflexivity|]. intros D.
+      unfold runs. destruct (runs_lr_distinct rest first (e_time first + e_v2 first) D) as [_ B]. rewrite B. reflexivity.
+Qed.
+
+(* mode 2, read run by run *)
+Theorem mode_gate_runs tb t first rest :
+  tr_tie_notes t = first :: rest -> tr_tie_mode t = 2 ->
+  let rs := runs first rest in
+  let tv := tr_tie_value t in
+  exists out, tr_events (check_tie_notes tb t) = tr_events t ++ out /\ length out = length rs /\
+    forall i d, (i < length rs)%nat ->
+      let h := fst (nth i rs (d, 0)) in
+      nth i out d =
+        set_v2 h (if (S i <? length rs)%nat
+                  then (if tv =? 0 then e_time (fst (nth (S i) rs (d, 0))) - e_time h else tv)
+                  else group_end first rest - e_time h).
+Proof.
+  intros G M. cbv zeta. destruct (mode_gate_spec tb t first rest G M) as [A [B _]].
+  exists (gate_notes (tr_tie_value t) (runs first rest)). split; [exact A|]. split; [exact B|].
+  intros i d Hi. rewrite gate_notes_nth by exact Hi.
+  destruct (S i <? length (runs first rest))%nat eqn:E; [reflexivity|].
+  apply Nat.ltb_ge in E. assert (Hl : i = (length (runs first rest) - 1)%nat) by lia.
+  f_equal. f_equal. unfold runs, group_end in *. rewrite Hl.
+  rewrite <- (runs_lr_last_end rest first (e_time first + e_v2 first) (d, 0)).
+  destruct (runs_lr first (e_time first + e_v2 first) rest) as [|p l] eqn:R; [cbn in Hi; lia|].
+  clear. cbn [length]. replace (S (length l) - 1)%nat with (length l) by lia.
+  revert p. induction l as [|q l IH]; intros p; [reflexivity|].
+  change (nth (length (q :: l)) (p :: q :: l) (d, 0)) with (nth (length l) (q :: l) (d, 0)).
+  change (last (p :: q :: l) (d, 0)) with (last (q :: l) (d, 0)). apply IH.
+Qed.
